@@ -231,7 +231,7 @@ class PVLEncoder(object):
                     "Encountered a character that was not "
                     "a valid character according to the "
                     'grammar: "{}", it is in: '
-                    '"{}"'.format(c, s[i - 5, i + 5])
+                    '"{}"'.format(c, s[max(0, i - 5): i + 5])
                 )
 
         return self.newline.join(lines)
